@@ -586,6 +586,7 @@ func c10Work(c *engine.Ctx) {
 	c.Count("min:level_bytes", int64(lvl))
 	for _, seed := range seedsJSON {
 		c.EditBall([]byte(seed), alphaJSON, func(in []byte) { exec(in) })
+		c.ByteSweep([]byte(seed), true, func(in []byte) { exec(in); c.Count("byte-sweep", 1) })
 	}
 }
 
